@@ -25,6 +25,7 @@ type genState struct {
 	reliab   map[string]float64
 	maxBlocks int
 	past     []string // earlier transactions (text after the mode), for replays
+	unjailNow int     // key index of a jailed validator whose jail term ends within a nanosecond of this block's time (-1: none)
 }
 
 var poolAddr = hx(ModAddr(posTypes.StakedPoolName))
@@ -53,6 +54,9 @@ func (f *Fam) Exec(op string) (obs string, fails []common.Failure) {
 	switch w[0] {
 	case "begin":
 		obs = f.doBegin(w)
+		if f.dead {
+			f.checkHalt(before, w, fail)
+		}
 		if !f.dead {
 			after := f.app.Snap()
 			f.checkSlashing(before, after, w, fail)
@@ -60,6 +64,9 @@ func (f *Fam) Exec(op string) (obs string, fails []common.Failure) {
 		}
 	case "end":
 		obs = f.doEnd()
+		if f.dead {
+			f.checkHalt(before, w, fail)
+		}
 		if !f.dead {
 			f.checkEnd(obs, fail)
 			f.checkMaturity(before, f.app.Snap(), fail)
@@ -96,9 +103,119 @@ func (f *Fam) Exec(op string) (obs string, fails []common.Failure) {
 		after := f.app.Snap()
 		f.checkParams(before, after, w, obs, fail)
 		f.invariants(after, op, fail)
+		f.checkSupplyDelta(before, after, w, obs, fail)
 	}
 	f.checkReplica(w, fail)
 	return
+}
+
+// checkSupplyDelta: C02, second sentence. The total supply changes only by explicit mints and burns: BeginBlock mints
+// the queued awards and burns exactly the stake it takes away from validators (slashes, queued burns, forced
+// unstakes); an accepted DAO burn burns its amount; nothing else changes the supply.
+func (f *Fam) checkSupplyDelta(before, after *Snapshot, w []string, obs string, fail func(string, string, string)) {
+	if w[0] == "init" {
+		return
+	}
+	sup := func(s *Snapshot) sdk.Int {
+		if a, ok := s.Supply[Denom]; ok {
+			return a
+		}
+		return sdk.ZeroInt()
+	}
+	got := sup(after).Sub(sup(before))
+	exp := sdk.ZeroInt()
+	switch w[0] {
+	case "begin":
+		for _, a := range before.Awards {
+			exp = exp.Add(mustInt(a))
+		}
+		for a, v := range before.Vals {
+			if v.Status == 0 {
+				continue
+			}
+			now := sdk.ZeroInt()
+			if va, ok := after.Vals[a]; ok && va.Status != 0 {
+				now = va.Tokens
+			}
+			if now.LT(v.Tokens) {
+				exp = exp.Sub(v.Tokens.Sub(now))
+			}
+		}
+	case "tx":
+		t := parseTx(w)
+		if t.mode == "deliver" && t.kind == "daoburn" && strings.HasPrefix(obs, "ok") {
+			exp = mustInt(t.f["amt"]).Neg()
+		}
+	}
+	if !got.Equal(exp) {
+		fail("supply-delta-explicit", "C02:supply-delta", fmt.Sprintf("%s changed the total supply by %s; the explicit mints and burns of this operation amount to %s", clip(strings.Join(w, " ")), got, exp))
+	}
+}
+
+// checkHalt: a panic in BeginBlock / EndBlock stops the chain. The repository does that on purpose in a few
+// situations (each pinned by its own tests or a consequence of a documented conversion); every one of them is
+// recognised here from the request and the state before it. A halt in any other situation is reported with the
+// operation that caused it. It carries no property prefix: every chain property presupposes a running chain,
+// so the check of whichever property is running reports it.
+func (f *Fam) checkHalt(before *Snapshot, w []string, fail func(string, string, string)) {
+	m := kv(w)
+	msg := f.lastHalt
+	whale := false
+	for _, v := range before.Vals {
+		// a consensus power (or, at maturity, a stake) that does not fit an int64
+		if !v.Tokens.Quo(sdk.NewInt(1000000)).IsInt64() || (w[0] == "end" && !v.Tokens.IsInt64()) {
+			whale = true
+		}
+	}
+	explained := false
+	switch {
+	case strings.Contains(msg, "negative coin amount"):
+		for _, a := range before.Awards { // an award queued with a negative amount
+			if strings.HasPrefix(a, "-") {
+				explained = true
+			}
+		}
+	case strings.Contains(msg, "validator does not exist for that address"), strings.Contains(msg, "already tombstoned"), strings.Contains(msg, "handle evidence"):
+		// evidence against an address that has no validator record, an unstaked or an already convicted one
+		if m["e"] != "" && m["e"] != "-" {
+			for _, sv := range strings.Split(m["e"], ",") {
+				a := strings.Split(sv, ":")[0]
+				v, ok := before.Vals[a]
+				if !ok || v.Status == 0 || before.Sign[a].Tomb {
+					explained = true
+				}
+				// ... or one that a vote or a queued burn earlier in this same BeginBlock may have force-unstaked
+				if _, burn := before.Burns[a]; burn || strings.Contains(m["v"], a+":") {
+					explained = true
+				}
+				// ... or evidence listed twice: the first conviction tombstones
+				if strings.Count(m["e"], a+":") > 1 {
+					explained = true
+				}
+			}
+		}
+	case strings.Contains(msg, "validator record not found"):
+		for a := range before.Burns { // a burn queued for a validator that has left since
+			if _, ok := before.Vals[a]; !ok {
+				explained = true
+			}
+		}
+	case strings.Contains(msg, "Int64() out of bound"):
+		explained = whale // a stake whose consensus power does not fit an int64
+	case strings.Contains(msg, "not found") && w[0] == "begin":
+		// a vote for an address that never was a validator (no public-key relation / signing info)
+		if m["v"] != "" && m["v"] != "-" {
+			for _, sv := range strings.Split(m["v"], ",") {
+				if _, ok := before.Sign[strings.Split(sv, ":")[0]]; !ok {
+					explained = true
+				}
+			}
+		}
+	}
+	f.extra["halt-explained:"+fmt.Sprint(explained)]++
+	if !explained {
+		fail("no-unexpected-halt", "unexpected-halt", fmt.Sprintf("%s halted the chain: %q, and nothing in the request or the state accounts for it", clip(strings.Join(w, " ")), msg))
+	}
 }
 
 // checkReplica: C01. The second instance got the same request (and, unlike the primary, restarts, another
